@@ -145,6 +145,12 @@ class RefFSM:
             if self.output is not UNSET:
                 self.run_action('exit', self.state, data)
                 self.emit_state_events('exit')
+                if self.spec.get('exit_fail') == self.state:
+                    # the last on_exit event goes to a block that does not know its type: a
+                    # harmless failure reported to the caller; nothing else happens, the FSM
+                    # stays where it is and keeps working
+                    self.stat('failed_exit_deliveries')
+                    raise RefHarmless('unknown event type at the destination of on_exit')
             hops = 0
             while True:
                 hops += 1
@@ -188,6 +194,10 @@ class RefFSM:
             self.log.append(('ev', which, {
                 'source': self.name, 'trigger': which, 'state': self.state,
                 'value': self.output, 'sdata': {}}))
+
+
+class RefHarmless(Exception):
+    """model: the event fails with EdzedUnknownEvent, the simulation goes on"""
 
 
 class _Tag:
@@ -367,6 +377,11 @@ def run_group(spec, seqs, ctx, idx=0):
                 for state, n in spec['on_' + which].items():
                     if n:
                         kw[f"on_{which}_{state}"] = edzed.Event(dest, which)
+            if spec.get('exit_fail'):
+                st = spec['exit_fail']
+                picky = edzed.Input(f"picky{k}", initdef=0)
+                evs = [kw[f"on_exit_{st}"]] if f"on_exit_{st}" in kw else []
+                kw[f"on_exit_{st}"] = evs + [edzed.Event(picky, 'vf_nosuch_event')]
             if spec['on_notrans']:
                 kw['on_notrans'] = edzed.Event(dest, 'notrans')
             if spec['on_output']:
@@ -548,6 +563,8 @@ def judge_one(spec, seq, k, ref, out, fsms, results, ctx):
         except KeyError:
             exp = ('unknown',)
             ctx.count('unknown_events')
+        except RefHarmless:
+            exp = ('unknown',)
         except RefError as err:
             exp = ('error', str(err))
             ctx.count('chain_errors')
@@ -683,6 +700,8 @@ def random_spec(rng):
             spec['timers'][s] = target()
     if rng.random() < 0.15:
         spec['derive'] = rng.choice(['plain', 'split'])
+    if rng.random() < 0.12:
+        spec['exit_fail'] = rng.choice(states)
     # keep_last must not leave the FSM uninitialised after the init transition: checked by caller
     return spec, evs
 
